@@ -100,9 +100,10 @@ class Session:
         self.ev = []
         self.cur = None
         self.cur_objs = None
-        self.fetcher = {}
+        self.fetcher = {}             # the fetchers of the connection in progress (a fresh dict per connect)
         self.ext = None
         self.done = {'log': False, 'param': False}
+        self.cache_label = {}         # kind -> what the harness turned the cache file into ('old', 'extra', 'broken')
         self.in_retry = {}            # thread name -> request being retried
         self.nconn = 0
         self.entries = {'log': sc['log'], 'param': sc['param']}
@@ -136,11 +137,7 @@ class Session:
                 me.fetcher[kind] = self
                 if kind == 'param':
                     me.ext = None
-                pat = '%08X.json' % me.crc[kind]
-                cached = any(n.endswith(pat) for n in self._toc_cache._cache_files)
-                me.ev.append({'e': 'start', 'kind': kind, 'ver': 2 if me.v2 else 1, 'cached': bool(cached),
-                              'crc': list(me.crc[kind].to_bytes(4, 'little')),
-                              'resend': bool(me.dev.needs_resending)})
+                    me.start_event(kind, self._toc_cache)     # (log: at Log.refresh_toc, see below)
                 tocm.TocFetcher.start(self)
 
         class _ExtendedTypeFetcher(paramm._ExtendedTypeFetcher):
@@ -178,6 +175,16 @@ class Session:
                 self.in_retry.pop(name, None)
         cf._no_answer_do_retry = retry
 
+        # the log download begins with Log.refresh_toc (self.toc = None, RESET command); the
+        # TocFetcher is created when the RESET reply arrives
+        orig_refresh = cf.log.refresh_toc
+
+        def log_refresh(refresh_done_callback, toc_cache):
+            self.fetcher['log'] = None
+            self.start_event('log', toc_cache)
+            return orig_refresh(refresh_done_callback, toc_cache)
+        cf.log.refresh_toc = log_refresh
+
         orig_log_done = cf._log_toc_updated_cb
         orig_param_done = cf._param_toc_updated_cb
 
@@ -190,6 +197,17 @@ class Session:
             return orig_param_done()
         cf._log_toc_updated_cb = log_done
         cf._param_toc_updated_cb = param_done
+
+    def start_event(self, kind, toc_cache):
+        pat = '%08X.json' % self.crc[kind]
+        try:
+            present = any(n.endswith(pat) for n in toc_cache._cache_files)
+        except Exception:
+            present = False
+        label = (self.cache_label.get(kind) or 'own') if present else 'none'
+        self.ev.append({'e': 'start', 'kind': kind, 'ver': 2 if self.v2 else 1, 'cached': label,
+                        'crc': list(self.crc[kind].to_bytes(4, 'little')),
+                        'resend': bool(self.dev.needs_resending)})
 
     def restore(self):
         logm, paramm, _ = self._mods
@@ -214,7 +232,7 @@ class Session:
             self.cur = {'e': 'rx', 'kind': k, 'ch': pk.channel, 'd': list(pk.data), 'st': None}
             # the objects of the connection this packet belongs to (the projection is taken when the
             # dispatcher has finished with the packet; a reconnect may have replaced them by then)
-            self.cur_objs = (self.fetcher.get(k), self.ext, self.done)
+            self.cur_objs = (self.fetcher, self.ext, self.done)
             self.ev.append(self.cur)
 
     def _on_idle(self):
@@ -233,21 +251,28 @@ class Session:
 
     def _on_connected(self, uri):
         self.nconn += 1
+        self.dev.faults.setup_on = False
         self.ev.append(self.snapshot('connected'))
         self.connected_evt.set()
 
     def open(self, attempt):
         self.done = {'log': False, 'param': False}
+        self.fetcher = {}
         self.connected_evt.clear()
         self.cf.open_link('tocsim://0/%d' % attempt)
 
     # ---- projections
     def project(self, kind, objs=None):
-        f, ext, done = objs if objs is not None else (self.fetcher.get(kind), self.ext, self.done)
+        fetchers, ext, done = objs if objs is not None else (self.fetcher, self.ext, self.done)
+        f = fetchers.get(kind)
+        lt = 'off'
+        if kind == 'log':
+            lt = 'wait' if self.cf.log.toc is None else 'on'
         if f is not None:
             ext = getattr(f, '_c03_ext', None)
         if f is None:
-            return {'fstate': 'idle', 'cb': False, 'reqIdx': 0, 'nItems': 0, 'ntoc': 0, 'done': False, 'xcount': 0}
+            return {'lt': lt, 'fstate': 'idle', 'cb': False, 'reqIdx': 0, 'nItems': 0, 'ntoc': 0,
+                    'done': bool(done[kind]), 'xcount': 0}
         try:
             cb = any(c.callback == f._new_packet_cb for c in self.cf.incoming.cb)
         except Exception:
@@ -259,7 +284,7 @@ class Session:
         xc = 0
         if kind == 'param' and ext is not None:
             xc = max(0, _int(ext._count, 0))
-        return {'fstate': FSTATE.get(f.state, 'idle'), 'cb': bool(cb), 'reqIdx': _int(f.requested_index, 0),
+        return {'lt': lt, 'fstate': FSTATE.get(f.state, 'idle'), 'cb': bool(cb), 'reqIdx': _int(f.requested_index, 0),
                 'nItems': _int(f.nbr_of_items, 0), 'ntoc': ntoc, 'done': bool(done[kind]), 'xcount': xc}
 
     def snapshot(self, what):
@@ -283,12 +308,53 @@ class Session:
         return t
 
 
+def edit_cache_file(path, how):
+    """Turn a cache file the library wrote itself into what another release / a crash would have
+    left under the same name.  The table in it stays the right one (or the file is unusable)."""
+    txt = open(path).read()
+    if how == 'old':            # release that did not know extended types: no 'extended' key
+        d = json.loads(txt)
+        for g in d.values():
+            for e in g.values():
+                e.pop('extended', None)
+        txt = json.dumps(d, indent=2)
+    elif how == 'extra':        # a later release: additional keys the decoder does not know
+        d = json.loads(txt)
+        for g in d.values():
+            for e in g.values():
+                e['persistent'] = False
+                e['flags'] = [1, 2]
+        d_keys = list(d)
+        txt = json.dumps({k: d[k] for k in d_keys}, indent=4, sort_keys=False)
+    elif how == 'trunc':        # interrupted write
+        txt = txt[:max(1, (2 * len(txt)) // 3)]
+    elif how == 'garbage':
+        txt = 'not a table\x00{' + txt[:20]
+    elif how == 'nokey':        # one entry lost a key the decoder needs
+        d = json.loads(txt)
+        for g in d.values():
+            for e in g.values():
+                e.pop('pytype', None)
+                break
+            break
+        txt = json.dumps(d, indent=2)
+    with open(path, 'w') as f:
+        f.write(txt)
+
+
+CACHE_LABEL = {'old': 'old', 'extra': 'extra', 'trunc': 'broken', 'garbage': 'broken', 'nokey': 'broken'}
+
+
 def execute(sc, mutant=None):
     """Free-running execution: connect (`connects` times, with the read-write cache if asked),
-    faults from the script, snapshot at every connected and before every close / at the end."""
-    cache_dir = None
+    faults from the script, snapshot at every connected and before every close / at the end.
+    Between two connects the cache files may be rewritten (`cache_edit`: kind -> variant) and moved
+    into a read-only directory (`cache_ro`), as an application restart would find them."""
+    cache_dir = ro_dir = None
     if sc.get('cache'):
         cache_dir = tlc.scratch_dir('c03cache-')
+        if sc.get('cache_ro'):
+            ro_dir = tlc.scratch_dir('c03cache-')
         # decoys: cache files of OTHER tables (as another firmware build would have left them) whose
         # checksums share their low hex digits with this device's; they must not be taken for it
         for (crc, kind) in sc.get('decoys', ()):
@@ -307,6 +373,21 @@ def execute(sc, mutant=None):
                 undo = MUTANTS[mutant]()
             ses = Session(s, sc, cache_dir=cache_dir)
             try:
+                def between_connects():
+                    import cflib.crazyflie.toccache as cm
+                    for kind, how in (sc.get('cache_edit') or {}).items():
+                        path = os.path.join(cache_dir, '%08X.json' % ses.crc[kind])
+                        if os.path.exists(path):
+                            edit_cache_file(path, how)
+                            ses.cache_label[kind] = CACHE_LABEL[how]
+                    if ro_dir:
+                        for fn in os.listdir(cache_dir):
+                            shutil.move(os.path.join(cache_dir, fn), os.path.join(ro_dir, fn))
+                        os.chmod(ro_dir, 0o555)
+                    if ro_dir or sc.get('cache_edit'):
+                        # the application starts again: a new TocCache looks at the directories
+                        ses.cf._toc_cache = cm.TocCache(ro_cache=ro_dir, rw_cache=cache_dir)
+
                 def user():
                     for c in range(sc.get('connects', 1)):
                         ses.open(c + 1)
@@ -326,26 +407,46 @@ def execute(sc, mutant=None):
                         ses.dev.flush_held()              # stale replies after connected
                         ses.idle_evt.clear()
                         ses.idle_evt.wait(2.0)
+                        if sc.get('post_reset'):
+                            # the application resets the log subsystem: one more RESET reply
+                            ses.cf.log.reset()
+                            vtime.sleep(0.3)
+                            ses.dev.flush_held()
+                            ses.idle_evt.clear()
+                            ses.idle_evt.wait(2.0)
                         ses.finalize()
                         ses.ev.append(ses.snapshot('end'))
                         if c + 1 < sc.get('connects', 1):
                             ses.cf.close_link()
                             vtime.sleep(0.05)
+                            between_connects()
                 u = s.spawn(user, 'user')
                 why = s.run(until=lambda: u.finished, horizon=3000.0)
                 ses.finalize()
                 rep = s.report()
                 dead = [t for t in rep if t['status'] == 'dead']
+                # which set-up replies (outside the two downloads) were duplicated by the script
+                names = {(sv.PORT_LINK, 1): 'linksource', (sv.PORT_PLATFORM, 1): 'version', (sv.PORT_MEM, 0): 'memcount'}
+                sdup = []
+                for k, acts in (sc.get('faults', {}).get('setup') or {}).items():
+                    i = int(k) - 1
+                    if i < len(ses.dev.faults.setup_seen) and len(acts) > 1:
+                        sdup.append(names.get(ses.dev.faults.setup_seen[i], 'other'))
                 detail = {'why': why, 'steps': s.steps, 'connected': res['connected'], 'flushes': res['flushes'],
-                          'dead': [t.get('traceback', '')[-400:] for t in dead]}
+                          'dead': [t.get('traceback', '')[-400:] for t in dead], 'setup_dups': sorted(set(sdup))}
             finally:
                 ses.restore()
         return ses.trace({'detail': detail})
     finally:
         if undo:
             undo()
-        if cache_dir:
-            shutil.rmtree(cache_dir, ignore_errors=True)
+        for d in (cache_dir, ro_dir):
+            if d:
+                try:
+                    os.chmod(d, 0o755)
+                except OSError:
+                    pass
+                shutil.rmtree(d, ignore_errors=True)
 
 
 MUTANTS = {}
@@ -396,9 +497,9 @@ def replay(job):
     rng = random.Random(1)
     sc = {kind: _spec_entries(cfg['dev'], kind), other: tocdev.gen_table(other, 1, True, rng, 'short'),
           'pver': 10 if cfg['ver'] == 2 else 3, 'resend': bool(cfg['resend']), 'faults': {},
-          'policy': ('fifo', 0), 'connects': 2 if cfg['cached'] else 1,
+          'policy': ('fifo', 0), 'connects': 2 if cfg['cached'] != 'none' else 1,
           'crc': {kind: int.from_bytes(bytes(cfg['crc']), 'little')}}
-    cache_dir = tlc.scratch_dir('c03cache-') if cfg['cached'] else None
+    cache_dir = tlc.scratch_dir('c03cache-') if cfg['cached'] != 'none' else None
     mism = None
     nsteps = matched = 0
     try:
@@ -407,7 +508,7 @@ def replay(job):
             try:
                 dev, cf = ses.dev, ses.cf
                 attempt = 1
-                if cfg['cached']:
+                if cfg['cached'] != 'none':
                     def warm():
                         ses.open(1)
                         ses.connected_evt.wait(30)
@@ -421,6 +522,11 @@ def replay(job):
                     if ses.nconn != 1:
                         raise common.MachineryError('replay: warm-up connect for the cache did not complete')
                     attempt = 2
+                    if cfg['cached'] != 'own':
+                        path = os.path.join(cache_dir, '%08X.json' % ses.crc[kind])
+                        if os.path.exists(path):
+                            edit_cache_file(path, cfg['cached'])
+                            ses.cache_label[kind] = CACHE_LABEL[cfg['cached']]
                 dev.manual = kind
                 u = s.spawn(lambda: ses.open(attempt), 'user')
                 for (name, args, post) in job['steps']:
@@ -469,7 +575,7 @@ def replay(job):
                     real['down'] = len(dev.bag)
                     real['pend'] = len(cf._answer_patterns)
                     real['idents'] = [e['ident'] for e in lib_table(f.toc)] if f is not None else []
-                    want = {'fstate': post['fstate'], 'cb': post['cbOn'], 'reqIdx': post['reqIdx'],
+                    want = {'lt': post['lt'], 'fstate': post['fstate'], 'cb': post['cbOn'], 'reqIdx': post['reqIdx'],
                             'nItems': post['nItems'], 'ntoc': len(post['toc']), 'done': post['done'],
                             'xcount': post['xcount'], 'xreq': post['xreq'], 'up': len(post['up']),
                             'down': _bag_size(post['down']), 'pend': len(post['pend']),
@@ -600,6 +706,9 @@ def _fetcher_variant(variant):
                 if variant == 'trunc8':
                     if (ident & 0xFF) != (self.requested_index & 0xFF):
                         return
+                elif variant == 'accept_ge':
+                    if ident < self.requested_index:          # only "old" replies are dropped
+                        return
                 elif variant != 'accept_any' and ident != self.requested_index:
                     return
                 if self._useV2:
@@ -712,7 +821,55 @@ def _mut_cache_ext():
     return _patch(C, '_decoder', dec)
 
 
+def _mut_toc_len():
+    import cflib.crazyflie.toc as tocm
+    tocm.Toc.__len__ = lambda self: sum(len(v) for v in self.toc.values())   # an empty Toc becomes falsy
+
+    def undo():
+        del tocm.Toc.__len__
+    return undo
+
+
+def _mut_cache_tolerant():
+    import cflib.crazyflie.toccache as cm
+    C = cm.TocCache
+
+    def dec(self, obj):
+        if '__class__' in obj:
+            elem = {'LogTocElement': cm.LogTocElement, 'ParamTocElement': cm.ParamTocElement}[obj['__class__']]()
+            elem.ident = obj['ident']
+            elem.group = str(obj['group'])
+            elem.name = str(obj['name'])
+            elem.ctype = str(obj['ctype'])
+            elem.pytype = str(obj['pytype'])
+            elem.access = obj['access']
+            if isinstance(elem, cm.ParamTocElement):
+                elem.extended = obj.get('extended', False)       # files of older releases are accepted
+            return elem
+        return obj
+    return _patch(C, '_decoder', dec)
+
+
+def _mut_platform_every_reply():
+    """the connection set-up is started again by every protocol-version reply"""
+    import cflib.crazyflie.platformservice as pm
+    P = pm.PlatformService
+
+    def cb(self, pk):
+        if pk.channel == pm.VERSION_COMMAND and pk.data[0] == pm.VERSION_GET_PROTOCOL:
+            self._protocolVersion = pk.data[1]
+            fn = getattr(self, '_c03_last_callback', None) or self._callback
+            if fn is not None:
+                self._c03_last_callback = fn
+                fn()
+    return _patch(P, '_platform_callback', cb)
+
+
 MUTANTS.update({
+    'accept_ge': _fetcher_variant('accept_ge'),
+    'toc_len': _mut_toc_len,
+    'cache_tolerant': _mut_cache_tolerant,
+    'platform_every_reply': _mut_platform_every_reply,
     'last_index': _fetcher_variant('last_index'),
     'accept_any': _fetcher_variant('accept_any'),
     'trunc8': _fetcher_variant('trunc8'),
@@ -732,19 +889,44 @@ SIZES_V1 = [0, 1, 2, 3, 254, 255]
 PVER_V2 = [4, 5, 10]
 PVER_V1 = [0, 1, 3, -1]        # -1: the link service does not answer with the magic string -> no version -> V1
 FAULT_ACTS = [['deliver', 'dup'], ['deliver', 'dup', 'dup'], [['hold', 1]], [['hold', 2]], [['hold', 3]],
-              [['hold', 1], 'dup'], [['hold', 6]]]
+              [['hold', 1], 'dup'], [['hold', 6]],
+              # a duplicate that arrives 1 / 2 / 4 downlink packets after the original
+              ['deliver', ['hold', 1]], ['deliver', ['hold', 2]], ['deliver', ['hold', 4]]]
+SETUP_ACTS = [['deliver', 'dup'], ['deliver', ['hold', 1]], ['deliver', ['hold', 2]], ['deliver', ['hold', 3]],
+              ['deliver', ['hold', 5]], [['hold', 1]], [['hold', 2]]]
+
+
+def pick_crcs(rng, cls=None):
+    """table checksums.  'elem': the bytes of an INFO reply parse as a TOC element (log: low byte a
+    type code 1..8; param: known type nibble and a NUL among the other bytes); 'zeros': leading
+    zero hex digits; 'plain': anything.  Log and param checksums differ (DESIGN 3.1(7))."""
+    cls = cls or rng.choice(['elem', 'elem', 'plain', 'zeros'])
+    if cls == 'elem':
+        lb = [rng.randint(1, 8)] + [rng.choice([0, rng.randint(1, 255)]) for _ in range(3)]
+        pb = [rng.choice(tocdev.PARAM_CODES) | rng.choice([0, 0x10, 0x40, 0x50]), rng.randint(1, 255), rng.randint(1, 255),
+              rng.randint(1, 255)]
+        pb[rng.randint(1, 3)] = 0
+        lc, pc = int.from_bytes(bytes(lb), 'little'), int.from_bytes(bytes(pb), 'little')
+    elif cls == 'zeros':
+        lc, pc = rng.randrange(1 << 16), rng.randrange(1 << 20)
+    else:
+        lc, pc = rng.randrange(1 << 32), rng.randrange(1 << 32)
+    if lc == pc:
+        pc ^= 0x01000000
+    return {'log': lc, 'param': pc}
 
 
 def make_scenario(rng, nl, npar, pver, resend=True, faults=None, policy=('fifo', 0), style='mixed', **kw):
     v2 = pver >= 4
     sc = {'log': tocdev.gen_table('log', nl, v2, rng, style), 'param': tocdev.gen_table('param', npar, v2, rng, style),
           'pver': pver, 'resend': resend, 'faults': faults or {}, 'policy': list(policy)}
+    sc['crc'] = pick_crcs(rng)
     sc.update(kw)
     return sc
 
 
 def _nreplies(sc, kind):
-    n = 1 + len(sc[kind])
+    n = 1 + len(sc[kind]) + (1 if kind == 'log' else 0)      # log: RESET reply, INFO, items
     if kind == 'param':
         n += sum(1 for e in sc['param'] if e['type'] & 0x10)
     return n
@@ -779,11 +961,15 @@ def scenarios(tier, rng):
     for v2 in (True, False):
         for (a, b) in [(0, 0), (1, 1), (2, 3), (3, 2), (3, 3)]:
             base = make_scenario(rng, a, b, 10 if v2 else 3)
+            base['crc'] = pick_crcs(rng, 'elem')      # a duplicated INFO reply looks like an element
             for kind in ('log', 'param'):
                 nrep = _nreplies(base, kind)
                 singles = [(k, act) for k in range(1, nrep + 1) for act in FAULT_ACTS]
                 if quick:
-                    singles = singles[::3]
+                    # the set-up end of the download (RESET, INFO, first element) keeps every
+                    # duplicate placement; the rest is thinned out
+                    front = [(k, act) for (k, act) in singles if k <= 3 and len(act) > 1]
+                    singles = front + [x for x in singles[::3] if x not in front]
                 for (k, act) in singles:
                     sc = copy.deepcopy(base)
                     sc['faults'] = {kind: {str(k): act}}
@@ -832,6 +1018,50 @@ def scenarios(tier, rng):
                                                crc={'log': lc, 'param': pc}, decoys=decoys)))
     for (a, b) in [(2, 3), (1, 5)]:
         out.append(('cache', make_scenario(rng, a, b, 10, cache=True, connects=2, early_notify=[0, 2])))
+    # -- setup: the other replies of the connection set-up (link-service source, protocol version,
+    #    memory count) duplicated at once, duplicated with the copy arriving 1..5 packets later, delayed
+    k = 0
+    for (a, b) in [(0, 0), (1, 1), (3, 2)]:
+        for pver in (10, 3, -1):
+            base = make_scenario(rng, a, b, pver)
+            for pos in (1, 2, 3):
+                for act in SETUP_ACTS:
+                    k += 1
+                    if quick and k % 3:
+                        continue
+                    sc = copy.deepcopy(base)
+                    sc['faults'] = {'setup': {str(pos): act}}
+                    if k % 5 == 0:
+                        sc['faults']['log'] = {str(1 + k % 3): rng.choice(FAULT_ACTS)}
+                    out.append(('setup', sc))
+    # -- reset: the application resets the log subsystem after connected (one more RESET reply),
+    #    also with an empty log table and with duplicated RESET replies
+    for (a, b) in [(0, 2), (2, 2), (0, 0)]:
+        for pver in (10, 3):
+            for f in ({}, {'log': {'1': ['deliver', 'dup']}}, {'log': {'1': ['deliver', ['hold', 1]]}},
+                      {'log': {'1': ['deliver', ['hold', 2]]}}):
+                out.append(('reset', make_scenario(rng, a, b, pver, faults=f, post_reset=True)))
+    # -- cachefmt: what an application restart may find under the table's checksum: a file of an
+    #    older release (no 'extended' key), of a later one (extra keys), a truncated / garbage /
+    #    incomplete file; in the read-write or in the read-only directory.  The tables hold
+    #    persistent parameters; `connected` must show the device's table whatever the file is.
+    k = 0
+    for (a, b) in [(2, 4), (0, 3), (3, 1)]:
+        for v2 in (True, False):
+            for how in ('old', 'extra', 'trunc', 'garbage', 'nokey'):
+                for kinds in (('param',), ('log',), ('log', 'param')):
+                    k += 1
+                    if quick and k % 3 != 1:
+                        continue
+                    sc = make_scenario(rng, a, b, 10 if v2 else 3, cache=True, connects=2,
+                                       cache_edit={kd: how for kd in kinds}, cache_ro=(k % 2 == 0))
+                    for j, e in enumerate(sc['param']):
+                        if j % 2 == 0:               # extended + persistent
+                            e['type'] |= 0x10
+                            e['xt'] = 1
+                    if k % 4 == 0:
+                        sc['faults'] = {rng.choice(['log', 'param']): {str(rng.randint(1, 3)): rng.choice(FAULT_ACTS)}}
+                    out.append(('cachefmt', sc))
     # -- random
     for _ in range(250 if quick else 4000):
         pver = rng.choice(PVER_V2 + PVER_V1)
@@ -844,8 +1074,15 @@ def scenarios(tier, rng):
         sc['faults'] = f
         sc['policy'] = [rng.choice(['fifo', 'random', 'pct']), rng.randrange(1 << 30), rng.choice([0.0, 0.0, 0.03, 0.1])]
         if rng.random() < 0.15:
+            sc['faults']['setup'] = {str(rng.randint(1, 3)): rng.choice(SETUP_ACTS)}
+        if rng.random() < 0.15:
             sc['cache'] = True
             sc['connects'] = 2
+            if rng.random() < 0.4:
+                sc['cache_edit'] = {rng.choice(['log', 'param']): rng.choice(['old', 'extra', 'trunc', 'garbage', 'nokey'])}
+                sc['cache_ro'] = rng.random() < 0.5
+        elif rng.random() < 0.1:
+            sc['post_reset'] = True
         out.append(('random', sc))
     return out
 
@@ -968,9 +1205,17 @@ def signature(trace, clause, at, wit):
         cls = 'mid'
     ver = next((e['ver'] for e in trace['ev'] if e['e'] == 'start'), 0)
     seen = {e['e'] for e in trace['ev'][:max(at, 0)] if e.get('kind') == kind}
-    cached = any(e['e'] == 'start' and e['kind'] == kind and e['cached'] for e in trace['ev'][:max(at, 0)])
+    cached = any(e['e'] == 'start' and e['kind'] == kind and e['cached'] != 'none' for e in trace['ev'][:max(at, 0)])
     dist = '+'.join(sorted(seen & {'dup', 'timeout'})) or 'clean'
     when = trace['ev'][at - 1]['e'] if 0 < at <= len(trace['ev']) else '?'
+    sdup = (trace.get('detail') or {}).get('setup_dups')
+    if sdup:
+        # a duplicated set-up reply outside the two downloads: the signature names it and stays coarse
+        return '%s/%s/setup-dup:%s' % (clause, kind or '-', '+'.join(sdup))
+    fmt = sorted({e['cached'] for e in trace['ev'][:max(at, 0)] if e['e'] == 'start' and e.get('kind') == kind
+                  and e['cached'] not in ('none', 'own')})
+    if fmt:
+        dist += '+file:' + '+'.join(fmt)
     return '%s/%s/v%d/%s/%s%s/at-%s' % (clause, kind or '-', ver, cls, dist, '+cache' if cached else '', when)
 
 
@@ -978,7 +1223,9 @@ def signature(trace, clause, at, wit):
 def _summary(sc):
     return {'pver': sc['pver'], 'log_entries': len(sc['log']), 'param_entries': len(sc['param']),
             'resend': sc['resend'], 'faults': sc['faults'], 'policy': sc['policy'],
-            'connects': sc.get('connects', 1), 'cache': bool(sc.get('cache'))}
+            'connects': sc.get('connects', 1), 'cache': bool(sc.get('cache')),
+            'cache_edit': sc.get('cache_edit'), 'cache_ro': bool(sc.get('cache_ro')),
+            'post_reset': bool(sc.get('post_reset')), 'crc': {k: '%08X' % v for k, v in (sc.get('crc') or {}).items()}}
 
 
 def mutant_suite(rng, tier):
@@ -995,13 +1242,15 @@ def mutant_suite(rng, tier):
             for e, g in zip(base[kind], (b'A', b'B', b'A', b'C')):
                 e['group'] = g
             base[kind][2]['name'] = bytes(base[kind][0]['name'][:20]) + b'x'
+        base['crc'] = pick_crcs(rng, 'elem')
         out.append((base, None))
         for kind in ('log', 'param'):
             for k in range(1, _nreplies(base, kind) + 1):
-                for act in ((['deliver', 'dup'],) if tier == 'quick' else (['deliver', 'dup'], [['hold', 1]])):
+                for act in ((['deliver', 'dup'], ['deliver', ['hold', 1]]) if tier == 'quick' else
+                            (['deliver', 'dup'], ['deliver', ['hold', 1]], [['hold', 1]])):
                     sc = copy.deepcopy(base)
                     sc['faults'] = {kind: {str(k): act}}
-                    out.append((sc, ('accept_any', 'ext_any', 'early_done', 'last_index')))
+                    out.append((sc, ('accept_any', 'accept_ge', 'toc_len', 'ext_any', 'early_done', 'last_index')))
     big = ('trunc8', 'info_u8', 'last_index')
     out.append((make_scenario(rng, 258, 3, 10), big))
     if tier != 'quick':
@@ -1013,6 +1262,19 @@ def mutant_suite(rng, tier):
         e['xt'] = 1
         e['value'] = e['default'] = bytes(tocdev.PARAM_WIDTH[t & 0x0F])
     out.append((c, None))
+    # a cache file of a release without extended types under the param checksum; persistent parameters
+    for ro in (False, True):
+        c2 = copy.deepcopy(c)
+        c2['cache_edit'] = {'param': 'old'}
+        c2['cache_ro'] = ro
+        out.append((c2, ('cache_tolerant', 'cache_ext')))
+    # a duplicated protocol-version / link-source reply that arrives later
+    for pos in (1, 2):
+        for j in (1, 2, 3):
+            sc = make_scenario(rng, 3, 2, 10, faults={'setup': {str(pos): ['deliver', ['hold', j]]}})
+            out.append((sc, ('platform_every_reply',)))
+    # the application resets the log subsystem of a device with an empty log table
+    out.append((make_scenario(rng, 0, 2, 10, post_reset=True), ('toc_len',)))
     return out
 
 
@@ -1064,11 +1326,12 @@ def main(tier, seed, replay=None):
     from concurrent.futures import ThreadPoolExecutor
     cfgs = ['MC_TocFetch_quick.cfg', 'MC_TocFetch_boundary_quick.cfg'] if quick else \
            ['MC_TocFetch_thorough.cfg', 'MC_TocFetch_boundary.cfg', 'MC_TocFetch_deep.cfg']
-    bugs = ('offbyone', 'acceptany', 'earlydone', 'accessmask', 'trunc8')
+    bugs = ('offbyone', 'acceptany', 'earlydone', 'accessmask', 'trunc8',
+            'accepthigher', 'resetguard', 'versionrestarts', 'oldcache')
     gcfg = 'MC_TocFetch_quick.cfg' if quick else 'MC_TocFetch_thorough.cfg'
     nsim = 150 if quick else 1000
     w = max(2, common.NCPU // 4)
-    with ThreadPoolExecutor(max_workers=9) as ex:
+    with ThreadPoolExecutor(max_workers=8) as ex:
         f_chk = [ex.submit(tlc.check, 'MC_TocFetch.tla', cfg, coverage=(not quick and 'boundary' not in cfg),
                            timeout=3000, workers=(w if 'boundary' in cfg else 2), heap='3g') for cfg in cfgs[1:]]
         f_bug = [ex.submit(tlc.expect_violation, 'MC_TocFetch.tla', 'MC_TocFetch_bug_%s.cfg' % bug, timeout=900, workers=2, heap='2g')
@@ -1143,7 +1406,8 @@ def main(tier, seed, replay=None):
                           {'source': 'replayed TLC behaviour', 'cfg': str(jobs[i]['cfg'])[:300]}, {'job': jobs[i]})
         else:
             sc_ = scs[i - nr]
-            out.violation('NeverConnected/%s' % fam_scs[i - nr][0], 'NeverConnected',
+            sd_ = (traces[i - nr].get('detail') or {}).get('setup_dups')
+            out.violation('NeverConnected/%s' % (('setup-dup:' + '+'.join(sd_)) if sd_ else fam_scs[i - nr][0]), 'NeverConnected',
                           {'family': fam_scs[i - nr][0], 'scenario': _summary(sc_), 'detail': traces[i - nr].get('detail')},
                           {'scenario': _jsonable(sc_)})
     all_traces = rtraces + traces
@@ -1155,7 +1419,7 @@ def main(tier, seed, replay=None):
     out.extra['connected_events'] = sum(sum(1 for e in t['ev'] if e['e'] == 'connected') for t in all_traces)
     out.extra['dup_events'] = sum(sum(1 for e in t['ev'] if e['e'] == 'dup') for t in all_traces)
     out.extra['timeout_events'] = sum(sum(1 for e in t['ev'] if e['e'] == 'timeout') for t in all_traces)
-    out.extra['cache_hits'] = sum(sum(1 for e in t['ev'] if e['e'] == 'start' and e['cached']) for t in all_traces)
+    out.extra['cache_hits'] = sum(sum(1 for e in t['ev'] if e['e'] == 'start' and e['cached'] != 'none') for t in all_traces)
     out.rule = ('scenario = (log table, param table, protocol version, retry on/off, fault script per k-th reply, schedule '
                 'policy, cache/2 connects); sources: transition tour over the complete state graph of %s (%d of %d edges) '
                 'and TLC -simulate behaviours replayed step by step, table sizes {0,1,2,3,254..258,300} x V1/V2, every '
